@@ -42,9 +42,16 @@ fn write_record(mut w: impl Write, record: &Record) -> std::io::Result<()> {
     )
 }
 
+/// rustls dumps every handshake message it handles at the trace level, the ClientHello with
+/// the raw SNI (which may carry credentials) included: these records are not written.
+fn is_enabled(metadata: &Metadata) -> bool {
+    metadata.level() <= log::max_level()
+        && !(metadata.level() == log::Level::Trace && metadata.target().starts_with("rustls"))
+}
+
 impl Log for StdoutLogger {
     fn enabled(&self, metadata: &Metadata) -> bool {
-        metadata.level() <= log::max_level()
+        is_enabled(metadata)
     }
 
     fn log(&self, record: &Record) {
@@ -72,7 +79,7 @@ impl FileLogger {
 
 impl Log for FileLogger {
     fn enabled(&self, metadata: &Metadata) -> bool {
-        metadata.level() <= log::max_level()
+        is_enabled(metadata)
     }
 
     fn log(&self, record: &Record) {
